@@ -125,6 +125,8 @@ func simErr(name, op string) error {
 		return &netlink.OpError{Op: "receive", Err: syscall.EPERM}
 	case "nl.EINVAL":
 		return &netlink.OpError{Op: "receive", Err: syscall.EINVAL}
+	case "nl.ENODEV": // what a dump filtered by an interface index that is gone says
+		return &netlink.OpError{Op: "receive", Err: syscall.ENODEV}
 	}
 	panic("sim: unknown error name " + name)
 }
@@ -986,6 +988,7 @@ func (w *world) rtnl(m rtnetlink.Message, family uint16, flags netlink.HeaderFla
 				Family:    unix.AF_INET6,
 				DstLength: uint8(p.Bits()),
 				Table:     unix.RT_TABLE_MAIN,
+				Type:      unix.RTN_UNICAST,
 				Attributes: rtnetlink.RouteAttributes{
 					Dst:      net.IP(p.Addr().AsSlice()),
 					OutIface: uint32(idx),
@@ -995,6 +998,9 @@ func (w *world) rtnl(m rtnetlink.Message, family uint16, flags netlink.HeaderFla
 			if r.Pref != nil {
 				v := uint8(*r.Pref)
 				rm.Attributes.Pref = &v
+			}
+			if r.Type != 0 {
+				rm.Type = uint8(r.Type)
 			}
 			out = append(out, rm)
 		}
